@@ -313,12 +313,15 @@ type zzC20Run struct {
 	bl        *zzC20Built
 	d         *zzC20Drv
 	callStart *atomic.Int64
-	calls     int
-	seeked    bool
+	// inflight describes the call in progress, for the hang report.
+	inflight atomic.Value
+	calls    int
+	seeked   bool
 }
 
-func (r *zzC20Run) guard(f func()) {
+func (r *zzC20Run) guard(what string, f func()) {
 	r.calls++
+	r.inflight.Store(what)
 	r.callStart.Store(time.Now().UnixNano())
 	defer r.callStart.Store(0)
 
@@ -345,14 +348,14 @@ func (r *zzC20Run) edge(act string, arg int64) (res string) {
 	var detail string
 	switch act {
 	case "start":
-		r.guard(func() { res, detail = r.d.start() })
+		r.guard("SeekStart", func() { res, detail = r.d.start() })
 		r.seeked = true
 	case "seek":
-		r.guard(func() { res, detail, _ = r.d.seek(r.ns(arg)) })
+		r.guard(fmt.Sprintf("seekTS(abstract %d)", arg), func() { res, detail, _ = r.d.seek(r.ns(arg)) })
 		r.seeked = true
 	case "read":
 		var line string
-		r.guard(func() { line, res, detail = r.d.read() })
+		r.guard("ReadNext", func() { line, res, detail = r.d.read() })
 		if res == "ok" {
 			g := r.bl.identify(line)
 			if g < 0 {
@@ -463,7 +466,7 @@ func (r *zzC20Run) ops() {
 		switch op[0] {
 		case 0:
 			var res, detail string
-			r.guard(func() { res, detail = r.d.start() })
+			r.guard("SeekStart", func() { res, detail = r.d.start() })
 			r.seeked = true
 			rec["op"], rec["res"] = "start", res
 			if detail != "" {
@@ -472,7 +475,7 @@ func (r *zzC20Run) ops() {
 		case 1:
 			var res, detail string
 			var depth int
-			r.guard(func() { res, detail, depth = r.d.seek(r.ns(op[1])) })
+			r.guard(fmt.Sprintf("seekTS(abstract %d)", op[1]), func() { res, detail, depth = r.d.seek(r.ns(op[1])) })
 			r.seeked = true
 			rec["op"], rec["t"], rec["res"], rec["depth"] = "seek", op[1], res, depth
 			if detail != "" {
@@ -498,7 +501,7 @@ func (r *zzC20Run) reads(rec zzC20Rec, k int, detail bool) {
 	n := 0
 	for k < 0 || n < k {
 		var line, res, dt string
-		r.guard(func() { line, res, dt = r.d.read() })
+		r.guard("ReadNext", func() { line, res, dt = r.d.read() })
 		n++
 		g := 0
 		switch res {
@@ -646,7 +649,8 @@ func TestZZVerifC20Run(t *testing.T) {
 		if status == "hang" {
 			// The goroutine is stuck inside the code under test and holds
 			// its lock: the objects are abandoned, not closed.
-			w.put(zzC20Rec{"k": "hang", "id": c.ID, "after_records": nrec, "wd_ms": wd.Milliseconds()})
+			what, _ := run.inflight.Load().(string)
+			w.put(zzC20Rec{"k": "hang", "id": c.ID, "after_records": nrec, "wd_ms": wd.Milliseconds(), "call": what})
 		} else {
 			run.d.close()
 			if status != "" {
